@@ -224,7 +224,8 @@ def line_iterator(readable_file, size=None):
         while byte:
             byte = read(1)
             line.append(byte)
-            if byte in b"\n":
+            if byte == b"\n" or (not byte and len(line) > 1):
+                # a complete line, or what is left at the end of the file
                 yield b"".join(line)
                 del line[:]
 
@@ -233,6 +234,6 @@ def line_iterator(readable_file, size=None):
             byte = read(1)
             size -= len(byte)
             line.append(byte)
-            if byte in b"\n" or not size:
+            if byte == b"\n" or (byte and not size) or (not byte and len(line) > 1):
                 yield b"".join(line)
                 del line[:]
